@@ -2,6 +2,7 @@ import GB.C15.ProofsPoll
 import GB.C15.ProofsWake
 import GB.C15.ProofsExtra
 import GB.C15.ProofsOnce
+import GB.C15.Agg
 import GB.Generated.Facts
 /-
   C15 — description updates are delivered exactly when the target's contract changes.
@@ -608,3 +609,113 @@ example :
     (GB.LTS.run stepO (W.init true) [.load 0, .load 1, .fire 0, .fire 1]).isNone = true ∧
     ((GB.LTS.run stepO (W.init true) [.load 0, .load 1, .fire 0, .closeCh 0, .fire 1]).map
       (fun s => ((s.callers 1).pc, s.closed))) = some (.finished, [0]) := by decide
+
+/-! ## round 5 — (1) `aggregateWatcher` over its members, all interleavings with `Close` -/
+
+/-- **Fan-out, every interleaving.** `Agg.step` lets the poller's calls on the aggregate (member by
+    member) interleave arbitrarily with the aggregate's `Close()` (member by member, on the goroutine of
+    `ReflectionRouter.Remove`). In every reachable state, for every member `j`: what it has applied is a
+    prefix of the calls it was offered — in the resolver's order, none twice, none invented — and an
+    OPEN member has applied all of them (exactly once per change); the offered sequences are prefixes of
+    the one call sequence of the resolver, so any two members agree up to a suffix; with no `Close`
+    called and no call in progress all members hold exactly the calls made; and `Close` never meets a
+    member that is already closed (the members' "called multiple times" panic is unreachable). -/
+theorem C15_aggregate_members_all_interleavings {α : Type} (n : Nat) (s : Agg.G α)
+    (h : GB.LTS.Reachable Agg.step (Agg.G.init n) s) :
+    s.n = n ∧
+    (∀ j, j < n → s.applied j <+: Agg.offered s j ∧ (s.closed j = false → s.applied j = Agg.offered s j)) ∧
+    (∀ j, j < n → Agg.offered s j <+: s.past ++ s.cur.toList) ∧
+    (s.cpos = none → s.cur = none → ∀ j, j < n → s.applied j = s.past) ∧
+    (∀ i j, i < n → j < n → s.applied i <+: s.applied j ∨ s.applied j <+: s.applied i) ∧
+    (∀ k, s.cpos = some k → k < n → s.closed k = false) := by
+  have hn := Agg.n_reachable n s h
+  have hi := Agg.inv_reachable n s h
+  have hoff : ∀ j, Agg.offered s j <+: s.past ++ s.cur.toList := by
+    intro j
+    unfold Agg.offered
+    cases hc : s.cur with
+    | none => simp
+    | some e => simp only [Option.toList]; split <;> simp
+  refine ⟨hn, fun j hj => hi.a j (hn ▸ hj), fun j _ => hoff j, ?_, ?_, ?_⟩
+  · intro hc hcur j hj
+    have hop : s.closed j = false := by
+      cases hcl : s.closed j with
+      | false => rfl
+      | true => obtain ⟨k, hk, _⟩ := hi.c2 j hcl; simp [hc] at hk
+    have := (hi.a j (hn ▸ hj)).2 hop
+    simpa [Agg.offered, hcur] using this
+  · intro i j hi' hj
+    exact List.prefix_or_prefix_of_prefix ((hi.a i (hn ▸ hi')).1.trans (hoff i)) ((hi.a j (hn ▸ hj)).1.trans (hoff j))
+  · intro k hk _
+    cases hcl : s.closed k with
+    | false => rfl
+    | true =>
+      obtain ⟨k', hk', hlt⟩ := hi.c2 k hcl
+      rw [hk] at hk'
+      simp at hk'
+      omega
+
+/-- **Nothing after the aggregate's `Close` returned.** Once `Close()` has gone through all members
+    (`cpos = some n`) every member is closed, and along EVERY further execution — the resolver keeps
+    polling until `resolver.Close()`, which `Remove` calls only afterwards — no member applies anything. -/
+theorem C15_aggregate_nothing_after_close {α : Type} (n : Nat) (s : Agg.G α)
+    (h : GB.LTS.Reachable Agg.step (Agg.G.init n) s) (hc : s.cpos = some n) :
+    (∀ j, j < n → s.closed j = true) ∧
+    ∀ (ls : List (Agg.L α)) (s' : Agg.G α), GB.LTS.run Agg.step s ls = some s' →
+      ∀ j, j < n → s'.applied j = s.applied j := by
+  have hn := Agg.n_reachable n s h
+  have hi := Agg.inv_reachable n s h
+  refine ⟨fun j hj => (hi.c1 n hc).2 j hj, ?_⟩
+  have tail : ∀ (ls : List (Agg.L α)) (a b : Agg.G α), Agg.Inv a → a.n = n → a.cpos = some n →
+      GB.LTS.run Agg.step a ls = some b → ∀ j, j < n → b.applied j = a.applied j := by
+    intro ls
+    induction ls with
+    | nil => intro a b _ _ _ hr j _; simp [GB.LTS.run] at hr; rw [hr]
+    | cons l rest ih =>
+      intro a b hia hna hca hr j hj
+      simp only [GB.LTS.run] at hr
+      cases hst : Agg.step a l with
+      | none => simp [hst] at hr
+      | some a1 =>
+        rw [hst] at hr
+        have hfr := Agg.closed_frozen a a1 l hia (hna ▸ hca) hst
+        have hn1 : a1.n = n := (Agg.n_const a a1 l hst).trans hna
+        have := ih a1 b (Agg.inv_step a a1 l hia hst) hn1 (hn1 ▸ hfr.1) hr j hj
+        rw [this, hfr.2 j (hna ▸ hj)]
+  exact fun ls s' hr => tail ls s s' hi hn hc hr
+
+/-- **What a panicking (or blocking) member does to the others — the code as it is.** Nothing recovers a
+    panic of `w.UpdateDesc`: the range loop is abandoned and the poller goroutine is gone. In such a
+    state a call `e` is in progress at some member `pos < n`; the open members before `pos` have applied
+    `e`, the open members from `pos` on have NOT (the delivery is not atomic across members), and the
+    only steps left in the system are those of `Close` — no later change reaches anybody. (A member
+    that blocks is the same picture without `dead`: `deliver` is simply never taken.) -/
+theorem C15_aggregate_member_panic_splits {α : Type} (n : Nat) (s : Agg.G α)
+    (h : GB.LTS.Reachable Agg.step (Agg.G.init n) s) (hd : s.dead = true) :
+    ∃ e, s.cur = some e ∧ s.pos < n ∧
+      (∀ j, j < n → s.closed j = false → s.applied j = if j < s.pos then s.past ++ [e] else s.past) ∧
+      (∀ l s', Agg.step s l = some s' → l = .closeCall ∨ l = .closeMember) := by
+  have hn := Agg.n_reachable n s h
+  have hi := Agg.inv_reachable n s h
+  obtain ⟨hsome, hpos⟩ := Agg.dead_reachable n s h hd
+  obtain ⟨e, he⟩ := Option.isSome_iff_exists.mp hsome
+  refine ⟨e, he, hn ▸ hpos, fun j hj hop => ?_, fun l s' hs => ?_⟩
+  · have := (hi.a j (hn ▸ hj)).2 hop
+    simpa [Agg.offered, he] using this
+  · cases l <;> simp only [Agg.step] at hs
+    case closeCall => exact Or.inl rfl
+    case closeMember => exact Or.inr rfl
+    all_goals (repeat' split at hs)
+    all_goals simp_all
+
+/-- Non-vacuity: (i) two members, one change, no Close: both have it; (ii) `Close` between the two
+    deliveries of a change: member 0 applied it, member 1 was closed first — the lists differ by a
+    suffix, and a change after `Close` returned reaches nobody; (iii) member 1 panics: 0 has the change, 1 not. -/
+example :
+    ((GB.LTS.run Agg.step (Agg.G.init (α := Nat) 2) [.begin 7, .deliver, .deliver, .finish]).map
+      (fun s => (s.applied 0, s.applied 1, s.past))) = some ([7], [7], [7]) ∧
+    ((GB.LTS.run Agg.step (Agg.G.init (α := Nat) 2)
+        [.begin 7, .deliver, .closeCall, .closeMember, .closeMember, .deliver, .finish, .begin 8, .deliver, .deliver, .finish]).map
+      (fun s => (s.applied 0, s.applied 1, s.past, s.cpos))) = some ([7], [], [7, 8], some 2) ∧
+    ((GB.LTS.run Agg.step (Agg.G.init (α := Nat) 2) [.begin 7, .deliver, .deliverPanic]).map
+      (fun s => (s.applied 0, s.applied 1, s.dead, s.pos))) = some ([7], [], true, 1) := by decide
